@@ -80,3 +80,79 @@ func H_C12_async() {
 	}
 	vReach("end")
 }
+
+//verif:witness H_C12_registry bound unbound
+//verif:bound C12 all handle registry through the real Refresh: 1..2 handle names requested (one arbitrary byte each over {a,b,c}), loggers 'a' (sync) and 'b' (async) configured; obtaining a handle twice yields the same handle; Refresh fails iff a requested name is not configured; a bound handle's Write reaches the appenders of the logger of that name, verbatim
+
+func H_C12_registry() {
+	vOpt("loop", 400)
+	vOpt("preempt", 1)
+	savedHandles := loggerMap
+	loggerMap = map[string]*LoggerWrapper{}
+	defer func() {
+		Destroy()
+		global.init = false
+		loggerMap = savedHandles
+		TagAppDef.logger, TagBizDef.logger = nil, nil
+	}()
+	nh := 1 + vChoose("handles", 2)
+	names := make([]string, nh)
+	hs := make([]*LoggerWrapper, nh)
+	allConfigured := true
+	for i := 0; i < nh; i++ {
+		c := vByte("name")
+		vAssume(c == 'a' || c == 'b' || c == 'c')
+		names[i] = string([]byte{c})
+		hs[i] = GetLogger(names[i])
+		vAssert(GetLogger(names[i]) == hs[i], "handle-obtained-twice-is-the-same-handle")
+		if c == 'c' {
+			allConfigured = false
+		}
+	}
+	cfg := map[string]string{
+		"appender.ra.type":            "Rec",
+		"appender.rb.type":            "Rec",
+		"logger.a.type":               "Logger",
+		"logger.a.tags":               "_app_def",
+		"logger.a.appenderRef.ref":    "ra",
+		"logger.a.appenderRef.level":  "warn~error",
+		"logger.b.type":               "AsyncLogger",
+		"logger.b.tags":               "_biz_def",
+		"logger.b.bufferSize":         "100",
+		"logger.b.bufferFullPolicy":   "Block",
+		"logger.b.appenderRef.ref":    "rb",
+	}
+	err := Refresh(cfg)
+	if !allConfigured {
+		vAssert(err != nil, "refresh-fails-when-a-requested-handle-is-not-configured")
+		vReach("unbound")
+		return
+	}
+	vAssert(err == nil, "refresh-binds-configured-handles")
+	if err != nil {
+		return
+	}
+	var ra, rb *vRecAppender
+	for _, a := range global.appenders {
+		x := a.(*vRecAppender)
+		if x.Name == "ra" {
+			ra = x
+		} else {
+			rb = x
+		}
+	}
+	payload := vBytes("payload", 1+vChoose("plen", 2))
+	want := append([]byte(nil), payload...)
+	n, werr := hs[0].Write(payload)
+	vAssert(n == len(payload) && werr == nil, "write-reports-full-length")
+	Destroy() // flushes the async logger
+	target, other := ra, rb
+	if names[0] == "b" {
+		target, other = rb, ra
+	}
+	vAssert(target.writes == 1 && other.writes == 0, "write-reaches-exactly-the-named-loggers-appenders")
+	if target.writes == 1 {
+		vAssert(vBytesEqual(target.raw[0], want), "bytes-verbatim")
+	}
+	vReach("bound")
+}
